@@ -310,43 +310,14 @@ def body_generic_history(first: int, second: int) -> int:
 
 # ------------------------------------------------------------------ the member order of a nested union is part of the type
 
-def alias_pair(k):
-    """two builtin aliases that compare equal but order a nested union differently (new objects on every call: PEP 585
-    aliases are not interned), the data to convert and the image under each"""
-    import fractions
-    if k == 0:
-        return list[t.Union[int, float]], list[t.Union[float, int]], [1, 2], [1, 2], [1.0, 2.0]
-    elif k == 1:
-        return (dict[str, t.Union[int, float, None]], dict[str, t.Union[float, int, None]], {'k': 1, 'n': None}, {'k': 1, 'n': None},
-                {'k': 1.0, 'n': None})
-    elif k == 2:
-        return (tuple[t.Union[str, fractions.Fraction], ...], tuple[t.Union[fractions.Fraction, str], ...], ['1/2'], ('1/2',),
-                (fractions.Fraction(1, 2),))
-    elif k == 3:
-        return list[list[t.Union[bool, int]]], list[list[t.Union[int, bool]]], [[True, 1]], [[True, 1]], [[1, 1]]
-    else:
-        return (dict[str, list[t.Union[int, str]]], dict[str, list[t.Union[str, int]]], {'k': [1, 'a']}, {'k': [1, 'a']}, {'k': [1, 'a']})
-
-
-@obligation(pre="0 <= k <= 4 and 0 <= first <= 1", witnesses=(0,), timeout=120)
+@obligation(pre="0 <= k <= 7 and 0 <= first <= 1", witnesses=(0,), timeout=120)
 def body_alias_history(k: int, first: int) -> int:
-    """converting to list[Union[a, b]] and then to list[Union[b, a]] (equal-comparing aliases, either order of use): each uses its own left-most accepting member"""
-    (Ta, Tb, data, wa, wb) = alias_pair(0 if k == 0 else (1 if k == 1 else (2 if k == 2 else (3 if k == 3 else 4))))
-    order = ((Ta, wa), (Tb, wb)) if first == 0 else ((Tb, wb), (Ta, wa))
-    for rnd in range(2):
-        for (T, want) in order:
-            try:
-                r = pane.from_data(data, T)
-            except Exception as e:
-                if crosshair_exc(e):
-                    raise
-                return 7
-            if not eqv(r, want):
-                return 4
-    return 0
+    """converting to list[Union[a, b]] and then to list[Union[b, a]] (equal-comparing aliases / tuple and dict type literals, either order of use): each uses its own left-most accepting member"""
+    from props import shared as _sh
+    return _sh.alias_history(0 if k == 0 else (1 if k == 1 else (2 if k == 2 else (3 if k == 3 else (4 if k == 4 else (5 if k == 5 else (6 if k == 6 else 7)))))), first)
 
 
-for _k in range(5):
+for _k in range(8):
     try:
         body_alias_history(_k, 0)
     except Exception:
